@@ -333,6 +333,23 @@ def scenario(name, family, variants, files=None, ops=None, init=(), depth=2, tag
     return d
 
 
+def descending_copies(scenarios, tags_any=("dyndep", "pool", "console", "validation")):
+    """Seam S8: the same scenarios with ninja's Edge/Node objects at descending addresses (Plan::want_ and the dyndep
+    walk sets are ordered by address).  Only scenarios carrying one of the tags -- the features whose code iterates
+    those containers -- are copied."""
+    import copy
+    out = []
+    for sc in scenarios:
+        if tags_any and not (set(tags_any) & set(sc.get("tags", []))):
+            continue
+        c = copy.deepcopy(sc)
+        c["name"] = sc["name"] + "@desc"
+        c["alloc_order"] = "descending"
+        c["tags"] = list(sc.get("tags", [])) + ["alloc-descending", "no-conformance"]
+        out.append(c)
+    return out
+
+
 def declared_twin(v):
     """The same graph with discovered dependencies written as implicit inputs and dyndep information
     (extra inputs, implicit outputs, restat) written into the build statement."""
